@@ -4,7 +4,6 @@ import amaranth.lib.memory as memory
 from amaranth_types import ShapeLike
 import amaranth_types.memory as amemory
 
-from transactron.utils.amaranth_ext.elaboratables import OneHotMux
 from transactron.utils.transactron_helpers import from_method_layout, make_layout
 from ..core import *
 from ..utils import SrcLoc, get_src_loc, MultiPriorityEncoder
@@ -123,26 +122,19 @@ class MemoryBank(Elaboratable):
 
         for i in range(self.reads_ports):
             if self.read_on_resp:
-                read_output_addr_match = [
-                    write_port[j].en & (write_port[j].addr == read_output_addr[i]) for j in range(self.writes_ports)
-                ]
-                overflow_addr_match = [
-                    write_port[j].en & (write_port[j].addr == overflow_addr[i]) for j in range(self.writes_ports)
-                ]
-                m.d.comb += read_output_next[i].eq(
-                    OneHotMux.create(
-                        m,
-                        [(read_output_addr_match[j], write_port[j].data) for j in range(self.writes_ports)],
-                        read_port[i].data,
-                    )
-                )
-                m.d.comb += overflow_next[i].eq(
-                    OneHotMux.create(
-                        m,
-                        [(overflow_addr_match[j], write_port[j].data) for j in range(self.writes_ports)],
-                        overflow_data[i],
-                    )
-                )
+
+                def forward_writes(value, addr):
+                    # merge the granules written to `addr` in this cycle into `value`
+                    value = Value.cast(value)
+                    for j in range(self.writes_ports):
+                        hit = write_port[j].addr == addr
+                        granule = len(value) // len(write_port[j].en)
+                        mask = Cat((bit & hit).replicate(granule) for bit in write_port[j].en)
+                        value = (value & ~mask) | (Value.cast(write_port[j].data) & mask)
+                    return value
+
+                m.d.comb += read_output_next[i].eq(forward_writes(read_port[i].data, read_output_addr[i]))
+                m.d.comb += overflow_next[i].eq(forward_writes(overflow_data[i], overflow_addr[i]))
                 m.d.sync += overflow_data[i].eq(overflow_next[i])
             else:
                 m.d.comb += read_output_next[i].eq(read_port[i].data)
